@@ -1043,3 +1043,229 @@ class Gen:
         self.close_scope(body)
         main = func("main", [], body, ret=False)
         return imps + head + globs + funcs + [main]
+
+
+# ------------------------------------------------------------------ Go-compatible programs over EVERY declaring construct (direct oracle only)
+
+class GoRich:
+    """Seeded random Go-compatible programs (text level, outside MiniScope) whose identifiers cover the declaring
+    constructs of go/types' Defs map: struct fields (single and grouped), embedded fields of the shapes T, *T, pkg.T,
+    *pkg.T (in type declarations, struct literals types, function parameter types), methods with value / pointer /
+    unnamed / blank receivers, parameters and results (named, grouped, blank, unnamed, variadic), interface methods and
+    embedded interfaces, const iota groups, type switch symbolic variables, imports (plain, named, blank, dot).
+    NOT generated (they fail on the unchanged tree or do not parse as XGo; see deterministic sets): generic types and
+    functions (type parameters), labels, local type declarations, multi-name var/const/:=, range variables."""
+
+    def __init__(self, rng):
+        self.rng = rng
+        self.hist = {}
+
+    def note(self, k, n=1):
+        self.hist[k] = self.hist.get(k, 0) + n
+
+    def pick(self, xs):
+        return xs[self.rng.below(len(xs))]
+
+    def chance(self, n):
+        return self.rng.below(n) == 0
+
+    def params(self):
+        """-> (text, [arg texts for a call])"""
+        r = self.rng.below(6)
+        if r == 0:
+            return "", []
+        if r == 1:
+            self.note("param:unnamed", 2)
+            return "int, string", ["1", '"s"']
+        parts, args = [], []
+        k = 0
+        for _ in range(1 + self.rng.below(3)):
+            q = self.rng.below(4)
+            if q == 0:
+                parts.append("p%d int" % k)
+                args.append(str(k))
+                k += 1
+                self.note("param:named")
+            elif q == 1:
+                parts.append("p%d, p%d string" % (k, k + 1))
+                args += ['"a"', '"b"']
+                k += 2
+                self.note("param:grouped", 2)
+            elif q == 2:
+                parts.append("_ int")
+                args.append("0")
+                self.note("param:blank")
+            else:
+                parts.append("p%d bool" % k)
+                args.append("true")
+                k += 1
+                self.note("param:named")
+        if self.chance(3):
+            parts.append("rest ...int")
+            if self.chance(2):
+                args += ["7", "8"]
+            self.note("param:variadic")
+        return ", ".join(parts), args
+
+    def results(self):
+        """-> (text, return statement)"""
+        r = self.rng.below(6)
+        if r == 0:
+            return "", "return"
+        if r == 1:
+            self.note("result:unnamed")
+            return " int", "return 0"
+        if r == 2:
+            self.note("result:unnamed", 2)
+            return " (int, error)", "return 0, nil"
+        if r == 3:
+            self.note("result:named")
+            return " (n int)", "n = 1\n\treturn"
+        if r == 4:
+            self.note("result:named", 2)
+            return " (n int, err error)", "return"
+        self.note("result:named")
+        self.note("result:blank")
+        return " (n int, _ error)", "return"
+
+    def program(self):
+        out = ["package main", ""]
+        strings_name = self.pick(["strings", "str"])
+        used_imports = set()
+        types = []       # (name, [embedded field names with their access path head], fields)
+        body = []
+        decls = []
+        # base struct types
+        nbase = 1 + self.rng.below(2)
+        for i in range(nbase):
+            name = "S%d" % i
+            fl = ["\tf%d int" % i]
+            self.note("field")
+            if self.chance(2):
+                fl.append("\tg%d, h%d string" % (i, i))
+                self.note("field:grouped", 2)
+            decls.append("type %s struct {\n%s\n}" % (name, "\n".join(fl)))
+            self.note("type")
+            types.append({"name": name, "embeds": [], "fld": "f%d" % i})
+        # struct types with embedded fields
+        for i in range(nbase, nbase + 1 + self.rng.below(3)):
+            name = "S%d" % i
+            emb, lines = [], []
+            cands = [("own", t["name"]) for t in types] + [("pkg", "bytes.Buffer"), ("pkg", strings_name + ".Builder")]
+            seen = set()
+            for _ in range(1 + self.rng.below(3)):
+                kind, tn = self.pick(cands)
+                short = tn.split(".")[-1]
+                if short in seen:
+                    continue
+                seen.add(short)
+                ptr = self.chance(2)
+                lines.append("\t%s%s" % ("*" if ptr else "", tn))
+                if kind == "pkg":
+                    used_imports.add(tn.split(".")[0])
+                self.note("embedded:%s%s" % ("*" if ptr else "", "pkg.T" if kind == "pkg" else "T"))
+                emb.append((short, tn, ptr, kind))
+            lines.append("\tk%d int" % i)
+            self.note("field")
+            decls.append("type %s struct {\n%s\n}" % (name, "\n".join(lines)))
+            self.note("type")
+            types.append({"name": name, "embeds": emb, "fld": "k%d" % i})
+        # methods
+        methods = []
+        mk = 0
+        for t in types:
+            for _ in range(self.rng.below(3)):
+                rf = self.rng.below(4)
+                recv = ["(r %s)", "(r *%s)", "(%s)", "(_ *%s)"][rf] % t["name"]
+                self.note("recv:" + ["value", "pointer", "unnamed", "blank"][rf])
+                ps, args = self.params()
+                rs, ret = self.results()
+                mname = "M%d" % mk
+                mk += 1
+                decls.append("func %s %s(%s)%s {\n\t%s\n}" % (recv, mname, ps, rs, ret))
+                self.note("method")
+                methods.append((t["name"], mname, args, rs, ps))
+        # an interface with a method of some type, and an interface embedding it
+        if methods:
+            tn, mname, args, rs, ps = self.pick(methods)
+            decls.append("type I0 interface {\n\t%s(%s)%s\n}" % (mname, ps, rs))
+            decls.append("type I1 interface {\n\tI0\n\tExtra(x int) string\n}")
+            self.note("interface-method", 2)
+            self.note("embedded-interface")
+            self.note("param:named")
+            self.note("result:unnamed")
+        # const iota group
+        if self.chance(2):
+            decls.append("const (\n\tC0 = iota\n\tC1\n\tC2\n)")
+            self.note("const:iota", 3)
+            body.append("use(C0, C1, C2)")
+        # a function whose parameter type is a struct literal type with embedded fields
+        base = types[0]
+        ptr = self.chance(2)
+        decls.append("func fp(s struct {\n\t%s%s\n\tq int\n}, _ string) (res int) {\n\tres = s.q + s.%s.%s\n\treturn\n}"
+                     % ("*" if ptr else "", base["name"], base["name"], base["fld"]))
+        self.note("embedded:%sT(param-type)" % ("*" if ptr else ""))
+        self.note("field")
+        self.note("param:named")
+        self.note("param:blank")
+        self.note("result:named")
+        self.note("func")
+        body.append("use(fp(struct {\n\t\t%s%s\n\t\tq int\n\t}{%s%s{}, 1}, \"x\"))" % ("*" if ptr else "", base["name"], "&" if ptr else "", base["name"]))
+        self.note("embedded:%sT(literal-type)" % ("*" if ptr else ""))
+        self.note("field")
+        # values, selectors, method calls
+        for i, t in enumerate(types):
+            v = "v%d" % i
+            body.append("%s := &%s{}" % (v, t["name"]))
+            self.note("var:define")
+            body.append("use(%s.%s)" % (v, t["fld"]))
+            for short, tn, p, kind in t["embeds"]:
+                if kind == "own":
+                    if p:
+                        body.append("%s.%s = &%s{}" % (v, short, tn))
+                    inner = [x for x in types if x["name"] == tn][0]
+                    body.append("use(%s.%s.%s)" % (v, short, inner["fld"]))
+                else:
+                    if p:
+                        body.append("%s.%s = &%s{}" % (v, short, tn))
+                    body.append("use(%s.%s.Len())" % (v, short))
+            for tn, mname, args, rs, ps in methods:
+                if tn == t["name"]:
+                    if rs:
+                        body.append("use(%s.%s(%s))" % (v, mname, ", ".join(args)))
+                    else:
+                        body.append("%s.%s(%s)" % (v, mname, ", ".join(args)))
+        # type switch with a symbolic variable
+        if self.chance(2):
+            body.append("switch x := interface{}(v0).(type) {\n\tcase *S0:\n\t\tuse(x.f0)\n\tcase int:\n\t\tuse(x)\n\tdefault:\n\t\tuse(x)\n\t}")
+            self.note("typeswitch-var")
+        # imports
+        imps = []
+        if "bytes" in used_imports:
+            imps.append('\t"bytes"')
+            self.note("import:plain")
+        if strings_name in used_imports:
+            if strings_name == "str":
+                imps.append('\tstr "strings"')
+                self.note("import:named")
+            else:
+                imps.append('\t"strings"')
+                self.note("import:plain")
+        if self.chance(3):
+            imps.append('\t_ "os"')
+            self.note("import:blank")
+        if self.chance(3):
+            imps.append('\t. "strconv"')
+            body.append("use(Itoa(1))")
+            self.note("import:dot")
+        if imps:
+            out += ["import (", "\n".join(imps), ")", ""]
+        out.append("\n\n".join(decls))
+        out.append("")
+        out.append("func use(args ...interface{}) {}")
+        self.note("func")
+        self.note("param:variadic")
+        out.append("")
+        out.append("func main() {\n\t" + "\n\t".join(body) + "\n}")
+        self.note("func")
+        return "\n".join(out) + "\n"
